@@ -350,10 +350,20 @@ class PFITSReader(Filterbank):
         if skipback >= gulp:
             msg = f"readsamps ({gulp}) must be > skipback ({skipback})"
             raise ValueError(msg)
-        nreads, lastread = divmod(nsamps, (gulp - skipback))
+        if gulp == nsamps:
+            # The whole range fits in a single read: no overlap is needed
+            nreads, lastread = 0, nsamps
+        else:
+            nreads, lastread = divmod(nsamps, (gulp - skipback))
         if lastread < skipback:
             nreads -= 1
             lastread = nsamps - (nreads * (gulp - skipback))
+            if lastread < skipback:
+                msg = (
+                    f"skipback ({skipback}) is too large for readsamps ({gulp}): "
+                    f"the last block would have {lastread} samples"
+                )
+                raise ValueError(msg)
         blocks = [(ii, gulp, -skipback) for ii in range(nreads)]
         if lastread != 0:
             blocks.append((nreads, lastread, 0))
